@@ -6,6 +6,7 @@ pub fn main(args: &[String]) -> i32 {
     let mut dev = usize::MAX;
     let mut do_explore = false;
     let mut stdin: Option<String> = None;
+    let mut inject: Option<usize> = None;
     let mut script = String::new();
     let mut i = 0;
     while i < args.len() {
@@ -14,6 +15,10 @@ pub fn main(args: &[String]) -> i32 {
             "--explore" => do_explore = true,
             "--dev" => {
                 dev = args[i + 1].parse().unwrap();
+                i += 1;
+            }
+            "--inject" => {
+                inject = Some(args[i + 1].parse().unwrap());
                 i += 1;
             }
             "--stdin" => {
@@ -30,7 +35,7 @@ pub fn main(args: &[String]) -> i32 {
         setup.stdin = Some(s.into_bytes());
     }
     if !do_explore {
-        let r = run_once(&setup, &RunOpts { taps: false, log_taps: true, ..Default::default() });
+        let r = run_once(&setup, &RunOpts { taps: false, log_taps: true, inject: inject.map(|k| Inject { at: vec![(k, 124)], pid: 2 }), ..Default::default() });
         println!("end={:?} steps={} taps={} decisions={}", r.end, r.steps, r.taps, r.decisions.len());
         println!("stdout={:?}\nstderr={:?}", r.stdout, r.stderr);
         for (p, t) in r.trace_by_proc() {
